@@ -195,6 +195,22 @@ def run(ctx):
         ok = keys is not None and keys[0] == 'call' and keys[1] == 'std::iter::Iterator::collect' and \
             keys[2][0][0] == 'call' and keys[2][0][1] == 'std::iter::Iterator::map' and \
             any(x[0] == 'agg' and x[1] == 'std::ops::Range' for x in walk(keys[2][0][2][0]))
+        if not ok and keys is not None and keys[0] == 'call' and keys[1] in ('std::vec::Vec::new', 'std::vec::Vec::with_capacity'):
+            # second spelling: an empty Vec filled with push() inside the ascending decode loop, one push per iteration
+            ps = [c for c in q.calls(sl, 'std::vec::Vec::push') if q.arg_terms(c)[0] == keys]
+            okp = len(ps) == 1
+            if okp:
+                L = sl.cfg.loop_of(ps[0].bb)
+                it = None
+                if L is not None:
+                    for bi in sorted(L['body']):
+                        cc = sl.call_at(bi)
+                        if cc is not None and q.callee_name(cc) == 'std::iter::Iterator::next':
+                            it = q.unwrap_into_iter(q.arg_terms(cc)[0])
+                okp = L is not None and it is not None and it[0] == 'agg' and it[1] == 'std::ops::Range' and \
+                    all(sl.cfg.dominates(ps[0].bb, x) for x, _ in L['back_edges']) and \
+                    any(x[0] == 'call' and x[1].endswith('SliceKey::read') for x in walk(q.arg_terms(ps[0])[1]))
+            ok = okp
         ctx.inst('O1', 'slice keys', ok, 'Slice.keys = %s (must be collect() of a forward range map)' % show(keys)[:120], sl.span,
                  key=sl.name + '|O1|keys')
 
@@ -314,7 +330,14 @@ def run(ctx):
     lb = ctx.anchor('asefile::file::AsepriteFile::layer_by_name')
     if lb is not None:
         cs = q.calls(lb, 'asefile::file::AsepriteFile::layer')
-        ctx.floor('layer() calls in layer_by_name', len(cs), 1)
+        t_ = res(lb).ret()
+        if not cs and t_[0] == 'call' and t_[1] == 'std::iter::Iterator::find' and len(alts(t_)) == 1:
+            # second spelling: self.layers().find(..) - the forward iterator over all layers (LayersIter is judged below)
+            src = t_[2][0]
+            ok = src[0] == 'call' and src[1] == 'asefile::file::AsepriteFile::layers' and is_param(src[2][0], 1)
+            ctx.inst('O4', 'layer_by_name', ok, 'returns %s; must scan self.layers() forward with find(..)' % show(t_)[:100], lb.span, key=lb.name + '|O4')
+        else:
+            ctx.floor('layer() calls in layer_by_name', len(cs), 1)
         for c in cs:
             it = q.arg_terms(c)[1]
             rng = [x for x in walk(it) if x[0] == 'agg' and x[1] == 'std::ops::Range']
@@ -341,11 +364,8 @@ def run(ctx):
         ctx.floor('LayersIter.next stores', len(ws), 1)
         for loc, val, kind, site in ws:
             ok = val[0] == 'bin' and val[1] == 'Add' and is_param_path(val[2], 1, ['next']) and q.const_val(val[3]) == 1
-            guarded = False
-            for cond, vals, a in q.guards(li, site[1]):
-                if cond[0] == 'bin' and cond[1] == 'Lt' and is_param_path(cond[2], 1, ['next']) and q.bool_outcome(li, a, vals) is True \
-                        and cond[3][0] == 'call' and cond[3][1].endswith('num_layers'):
-                    guarded = True
+            guarded = any(op == 'Lt' and is_param_path(l_, 1, ['next']) and r_[0] == 'call' and r_[1].endswith('num_layers')
+                          for op, l_, r_ in q.facts_at(li, site[1]))
             ctx.inst('O4', 'LayersIter::next', ok and guarded, 'next := %s %s; must be next + 1 under next < num_layers'
                      % (show(val), 'under the bound test' if guarded else 'NOT under the bound test'), site[2], key=li.name + '|O4')
         for bb, st, t in q.stmt_aggs(li, 'asefile::layer::Layer') + [(None, None, x) for x in []]:
